@@ -6,7 +6,9 @@ markers, final loop variable, exception type and the final state of the (possibl
 For every function the generated C is inspected for the optimised loop form (C for loop, __Pyx_dict_iter_next,
 __Pyx_set_iter_next, unicode/bytes/C-array pointer loop); functions whose loop stayed a generic iterator loop are
 run as well but reported as `not_optimised` and do not count towards distinct_nontrivial."""
+import os
 import re
+from concurrent.futures import ThreadPoolExecutor
 
 from vlib import creach, cy, diff
 from vlib.gen import c14loops as G
@@ -57,34 +59,112 @@ def oclass(o):
     return o[0] + ':' + (o[1][0] if o[0] == 'ok' else o[1])
 
 
+def first_diff(exp, got, n):
+    """index of the first loop of a packed function whose (observations, final) differ"""
+    try:
+        if exp[0] == 'ok' and got[0] == 'ok' and exp[1][0] == 'list' and got[1][0] == 'list':
+            for i, (x, y) in enumerate(zip(exp[1][1], got[1][1])):
+                if x != y:
+                    return min(i, n - 1)
+            return min(len(got[1][1]), len(exp[1][1]), n - 1)
+    except Exception:
+        pass
+    return 0
+
+
+def _log_of(o):
+    for part in o[2:]:
+        if isinstance(part, list) and part and part[0] == 'log':
+            return part[1]
+    return None
+
+
+def only_first_two_log_entries_swapped(exp, got):
+    le, lg = _log_of(exp), _log_of(got)
+    if not le or not lg or len(le) < 2 or len(lg) < 2 or le == lg:
+        return False
+    if [le[1], le[0]] + le[2:] != lg:
+        return False
+    strip = lambda o: [p for p in o if not (isinstance(p, list) and p and p[0] == 'log')]
+    return strip(exp) == strip(got)
+
+
+def stop_logged_first(exp, got):
+    """both runs end in the same exception type and differ only in the log, where the compiled code logged (and
+    converted) the stop bound before the start bound was evaluated"""
+    le, lg = _log_of(exp), _log_of(got)
+    if not le or not lg or len(le) < 2 or le == lg or exp[0] != 'exc' or got[:2] != exp[:2]:
+        return False
+    strip = lambda o: [p for p in o if not (isinstance(p, list) and p and p[0] == 'log')]
+    return strip(exp) == strip(got) and lg[0] == le[1]
+
+
+def range_limits(fn, info):
+    """limits of the C type of the loop counter (object / inferred targets run on a C long counter)"""
+    return G.CTYPES.get(fn.typing, G.CTYPES['long'])
+
+
 def classify(fn, info, exp, got):
     """mechanism key from structural features of the template and the case (never from concrete values)"""
-    ek, gk = oclass(exp), oclass(got)
+    if 'packed' in info:
+        info = info['packed'][first_diff(exp, got, len(info['packed']))]
+        # outcome classes of a packed function are per loop: (observations, final value)
+        ek = gk = 'ok'
+    else:
+        ek, gk = oclass(exp), oclass(got)
     kind = fn.kind
     tcls = fn.typing if fn.typing not in G.CTYPES else ('ctarget:' + ('unsigned' if G.CTYPES[fn.typing][0] == 0 else 'signed'))
     if kind.startswith(('range-', 'revrange-')):
+        rev = ':reversed' if info.get('rev') else ''
+        if info.get('bkind') == 'expr' and (only_first_two_log_entries_swapped(exp, got) or stop_logged_first(exp, got)):
+            return 'range-bounds-evaluated-stop-first' + rev
         if info.get('feat') == 'hostile-bound':
             return '%s:%s:hostile-bound:%s->%s' % (kind, tcls, ek, gk)
-        if info.get('exit_fits') is False:
-            # every produced value fits the target type but start + len*step (the value the C counter takes after
-            # the last iteration) does not: the C loop counter overflows / wraps before the exit test
-            return 'crange-exit-value-overflow:%s%s' % (tcls.split(':')[-1], ':reversed' if info.get('rev') else '')
+        if 'triple' in info and info['triple'][2] != 0:
+            a, b, c = info['triple']
+            lo, hi = range_limits(fn, info)
+            sign = 'unsigned' if lo == 0 else 'signed'
+            if info.get('bkind') in ('obj', 'expr') and max(a, b) > 2 ** 63 - 1 and gk == 'exc:OverflowError':
+                # object bounds are converted to Py_ssize_t whatever the target type is
+                return 'range-object-bound-exceeds-ssize_t'
+            near = min(abs(v - lim) for v in (a, b) for lim in (lo, hi)) <= abs(c)
+            if near or info.get('exit_fits') is False:
+                # all produced values fit the counter type, but the counter arithmetic (exit value start+len*step,
+                # the +-step offset of descending unsigned loops, the first-value formula of reversed(range()))
+                # leaves the range of the type
+                return 'crange-counter-arithmetic-overflow-at-type-limit:%s%s' % (sign, rev)
         extra = ':neg-stop' if info.get('neg_stop_unsigned') else ''
         return '%s:%s:%s%s:%s->%s' % (kind, tcls, info.get('feat'), extra, ek, gk)
-    mut = fn.info.get('mut', 'none')
+    mut = info.get('mut') or fn.info.get('mut', 'none')
     feat = info.get('feat', '')
-    if kind.startswith('dict-') and mut in ('replace', 'readd') and ek == 'exc:RuntimeError' and feat != 'mu0':
-        return 'dict-iter-keys-changed-undetected:%s' % ('typed' if fn.typing == 'dict' else fn.typing)
+    if kind.startswith('dict-') and mut in ('replace', 'readd') and ek == 'exc:RuntimeError' and gk != 'exc:RuntimeError' and feat != 'mu0':
+        return 'dict-iter-keys-changed-undetected'
     if kind.startswith('enum-') and feat == 'start-hostile':
-        return 'enumerate-start-used-as-is:%s->%s' % (ek, gk)
-    if kind.startswith('bytes-') and info.get('highbyte') and fn.typing in ('int', 'long', 'short'):
-        return 'bytes-iter-signed-char-widening:%s' % fn.typing
+        return 'enumerate-start-used-as-is'
+    if kind == 'enum-logorder' and only_first_two_log_entries_swapped(exp, got):
+        return 'enumerate-start-evaluated-before-iterable'
+    if kind.startswith('bytes-') and info.get('highbyte') and fn.typing in ('int', 'long', 'short') and feat == 'mu0' or \
+            (kind.startswith('bytes-') and info.get('highbyte') and fn.typing in ('int', 'long', 'short')):
+        return 'bytes-iter-signed-char-widening'
+    if kind.startswith('bytes-literal-objtarget'):
+        return 'bytes-literal-object-target-yields-bytes'
+    if kind.startswith('bytes-literal') and kind.endswith('-rev') and fn.typing == 'literal':
+        return 'bytes-literal-object-target-yields-bytes'
     return '%s:%s:mut=%s:%s:%s->%s' % (kind, tcls, mut, feat, ek, gk)
 
 
+def classify_crash(fn, info, crash):
+    if info.get('container') == 'None' and 'Assertion' in (crash.get('stderr') or ''):
+        grp = 'set' if fn.kind.startswith('set-') else ('enumerate-' + ('tuple' if fn.kind.startswith('tuple') else 'list')
+                                                       if 'enum' in fn.kind else fn.kind)
+        return 'none-iterable-unchecked:' + grp
+    return 'crash:%s:%s' % (fn.kind, fn.typing)
+
+
 def build_all(ck, tree, fns, per_mod, tagbase):
-    """-> list of (modname, builddir, info, [fns]); failed modules are split (bisection) so that one bad template
-    does not hide the others; functions finally lost are counted"""
+    """-> (list of (modname, builddir, info, [fns], ref path), lost [(fn, info)]).  A module that fails to translate
+    is rebuilt without the functions the compiler's error positions point into; if no position is usable (crash,
+    C compiler failure) the module is split.  Functions finally lost are counted, never reported as violations."""
     done = []
     lost = []
     pending = [fns[i:i + per_mod] for i in range(0, len(fns), per_mod)]
@@ -94,23 +174,43 @@ def build_all(ck, tree, fns, per_mod, tagbase):
         groups = {}
         for gi, grp in enumerate(pending):
             name = '%s_r%d_%d' % (tagbase, rnd, gi)
-            mods[name] = G.HEADER + '\n'.join(f.src for f in grp)
-            groups[name] = grp
+            text = G.HEADER
+            starts = []
+            for f in grp:
+                starts.append(text.count('\n') + 1)
+                text += f.src + '\n'
+            mods[name] = text
+            groups[name] = (grp, starts)
         d, info = tree.build_sources(mods, subdir='b_%s_r%d' % (tagbase, rnd), ext='.pyx')
         pending = []
-        for name, grp in groups.items():
+        for name, (grp, starts) in groups.items():
             inf = info[name]
             if inf['ok']:
                 refp = inf['src'][:-4] + '_ref.py'
                 with open(refp, 'w', encoding='utf-8') as f:
                     f.write(G.HEADER + '\n'.join(x.ref for x in grp))
                 done.append((name, d, inf, grp, refp))
-            elif len(grp) == 1:
-                lost.append((grp[0], inf))
-            elif rnd >= 4:
+                continue
+            bad = set()
+            if inf['stage'] == 'translate' and not inf.get('crash'):
+                for m in re.finditer(r'%s\.pyx:(\d+):\d+:' % re.escape(name), inf['errors'] or ''):
+                    ln = int(m.group(1))
+                    idx = max(i for i, st in enumerate(starts) if st <= ln) if ln >= starts[0] else None
+                    if idx is not None:
+                        bad.add(idx)
+            if inf['stage'] == 'cc':
+                # the C compiler names the function ("In function '__pyx_pf_..._fz12z'")
+                toks = set(re.findall(r'fz\d+z', inf['errors'] or ''))
+                bad = {i for i, f in enumerate(grp) if f.name in toks}
+            if bad and rnd < 6:
+                lost.extend((grp[i], inf) for i in sorted(bad))
+                rest = [f for i, f in enumerate(grp) if i not in bad]
+                if rest:
+                    pending.append(rest)
+            elif len(grp) == 1 or rnd >= 4:
                 lost.extend((x, inf) for x in grp)
             else:
-                k = max(1, len(grp) // 4)
+                k = max(1, (len(grp) + 1) // 2)
                 pending.extend(grp[i:i + k] for i in range(0, len(grp), k))
         rnd += 1
     return done, lost
@@ -119,22 +219,31 @@ def build_all(ck, tree, fns, per_mod, tagbase):
 def generate(ck):
     g = G.Gen()
     rng = ck.rng('gen')
-    R = ck.pick(4, 8)
-    cube_typings = ['untyped', 'objinit', 'cinit', 'int', 'long', 'unsigned int']
     if ck.quick:
-        G.gen_range_literal(g, R, cube_typings, rng, rev_typings=[])
-        G.gen_range_literal(g, 3, [], rng, rev_typings=['untyped', 'long', 'unsigned int'])
+        G.gen_range_literal(g, 4, ['untyped', 'long'], rng)
+        G.gen_range_literal(g, 4, ['unsigned int', 'objinit', 'cinit', 'int'], rng, sample=14)
+        G.gen_range_literal(g, 3, ['untyped', 'long'], rng, rev=True)
+        G.gen_range_literal(g, 3, ['unsigned int', 'int'], rng, rev=True, sample=10)
     else:
-        G.gen_range_literal(g, R, ['untyped', 'long'], rng, rev_typings=['untyped'])
-        G.gen_range_literal(g, 5, ['objinit', 'cinit', 'int', 'unsigned int', 'Py_ssize_t', 'signed char', 'size_t'], rng,
-                            rev_typings=['long', 'unsigned int', 'int', 'cinit'])
-    G.gen_range_typebounds(g, list(G.CTYPES), rng, ck.pick(260, 4000))
-    arg_typings = ['untyped', 'objinit', 'object'] + list(G.CTYPES)
-    steps = ck.pick(['n1', 'n2', -3, -2, -1, 1, 2, 3], ['n1', 'n2', -7, -4, -3, -2, -1, 0, 1, 2, 3, 4, 7])
-    G.gen_range_args(g, arg_typings, steps, ['cvar', 'obj', 'expr'], ['full', 'rebind', 'nested', 'plain'], 4, rng,
-                     ck.pick(6, 30))
-    G.gen_range_args(g, ck.pick(['untyped', 'long', 'unsigned int', 'int', 'size_t'], arg_typings),
-                     ck.pick(['n2', -3, -2, -1, 1, 2, 3], steps), ['cvar', 'obj'], ['full'], 4, rng, ck.pick(4, 20), rev=True)
+        G.gen_range_literal(g, 8, ['untyped', 'long'], rng)
+        G.gen_range_literal(g, 8, ['untyped', 'long'], rng, rev=True)
+        G.gen_range_literal(g, 5, ['objinit', 'cinit', 'int', 'unsigned int', 'Py_ssize_t', 'signed char', 'size_t', 'object'], rng)
+        G.gen_range_literal(g, 5, ['unsigned int', 'int', 'cinit', 'size_t', 'signed char'], rng, rev=True)
+    G.gen_range_typebounds(g, list(G.CTYPES), rng, ck.pick(32, 400))
+    ctypes = list(G.CTYPES)
+    steps_q = ['n1', 'n2', -3, -2, -1, 1, 2, 3]
+    steps_t = ['n1', 'n2', -7, -4, -3, -2, -1, 0, 1, 2, 3, 4, 7]
+    if ck.quick:
+        G.gen_range_args(g, ['untyped', 'objinit'] + ctypes, steps_q, ['cvar'], ['full'], 4, rng, 6)
+        G.gen_range_args(g, ['untyped', 'long', 'unsigned int'], steps_q, ['cvar'], ['rebind', 'nested'], 4, rng, 6)
+        G.gen_range_args(g, ['untyped', 'long', 'unsigned int', 'signed char'], steps_q, ['obj'], ['full', 'rebind', 'plain'], 4, rng, 6)
+        G.gen_range_args(g, ['object', 'int', 'size_t'], ['n2', -2, 1, 3], ['obj', 'expr'], ['full'], 4, rng, 6)
+        G.gen_range_args(g, ['untyped', 'long', 'unsigned int'], ['n2', -3, -2, -1, 1, 2, 3], ['cvar'], ['full'], 4, rng, 4, rev=True)
+        G.gen_range_args(g, ['long', 'unsigned int', 'int'], [-3, -2, 2, 3], ['obj'], ['full'], 4, rng, 4, rev=True)
+    else:
+        alls = ['untyped', 'objinit', 'object'] + ctypes
+        G.gen_range_args(g, alls, steps_t, ['cvar', 'obj', 'expr'], ['full', 'rebind', 'nested', 'plain'], 6, rng, 30)
+        G.gen_range_args(g, alls, steps_t, ['cvar', 'obj'], ['full'], 6, rng, 20, rev=True)
     G.gen_range_dynstep(g)
     nper = ck.pick(5, 18)
     G.gen_dict(g, rng, nper, list(G.DICT_MUT))
@@ -144,18 +253,26 @@ def generate(ck):
     G.gen_str_bytes(g, rng, nper)
     G.gen_carray(g, rng)
     if not ck.quick:
-        # second, differently seeded draw of mutation histories for the containers
-        rng2 = ck.rng('gen2')
-        G.gen_dict(g, rng2, nper, list(G.DICT_MUT))
-        G.gen_set(g, rng2, nper, list(G.SET_MUT))
-        G.gen_list(g, rng2, nper, list(G.LIST_MUT))
+        # further, differently seeded draws of mutation histories for the containers
+        for r in range(3):
+            rng2 = ck.rng('gen%d' % (r + 2))
+            G.gen_dict(g, rng2, nper, list(G.DICT_MUT))
+            G.gen_set(g, rng2, nper, list(G.SET_MUT))
+            G.gen_list(g, rng2, nper, list(G.LIST_MUT))
+    only = os.environ.get('VERIF_C14_ONLY')
+    if only:
+        # development aid (never set by ./check users): restrict the workload to template kinds matching a regex
+        ck.note('VERIF_C14_ONLY=%s: partial workload, reach floors not applicable' % only)
+        return [f for f in g.fns if re.search(only, f.kind)]
     return g.fns
 
 
 def main(ck):
     tree = cy.Tree('C14')
     fns = generate(ck)
-    done, lost = build_all(ck, tree, fns, 420, 'c14')
+    per_mod = max(40, min(300, -(-len(fns) // 14)))
+    done, lost = build_all(ck, tree, fns, per_mod, 'c14')
+    ck.cov['t_build'] = round(ck.elapsed(), 1)
     for f, inf in lost[:10]:
         ck.note('template lost to a build failure (%s/%s): %s' % (f.kind, f.typing, (inf['errors'] or '')[-300:]))
     total_n = nontrivial = 0
@@ -168,9 +285,10 @@ def main(ck):
     kinds_opt = set()
     byname = {f.name: f for f in fns}
     nfun_opt = 0
+    jobs = []
     for name, d, inf, grp, refp in done:
         bodies = impl_bodies(open(inf['c'], encoding='utf-8', errors='replace').read())
-        runs = {True: [], False: []}
+        runs = {True: [], False: [], 'risky': []}
         infos = {}
         for f in grp:
             opt, anchor = reach(f.marker, bodies.get(f.name, ''))
@@ -184,14 +302,26 @@ def main(ck):
                 if f.expect_opt and f.marker != 'py-range':
                     unexpected_unopt.append('%s/%s/%s' % (f.kind, f.typing, f.shape))
             for i, (args, info) in enumerate(f.cases):
-                tag = '%s/%s/%s/%s%s' % (f.kind, f.typing, f.info.get('mut', f.shape), info.get('feat', ''), '' if opt else '/unopt')
+                tag = '%s/%s/%s/%s%s' % (f.kind, f.typing, info.get('mut') or f.info.get('mut', f.shape), info.get('feat', '') if 'packed' not in info else 'packed', '' if opt else '/unopt')
                 c = {'f': f.name, 'a': args, 't': tag, 'ci': i}
-                runs[opt].append(c)
-        for opt in (True, False):
-            if not runs[opt]:
-                continue
-            res = diff.run_cases(tree, d, name, runs[opt], ref=refp, compare={'post_args': True, 'log': True, 'exc_args': False},
-                                 setup=G.SETUP, tagdir='run_%s_%d' % (name, opt), timeout=600)
+                # calls that may bring the process down (None for a typed container) are kept apart so that the
+                # outcome histogram of the other cases survives
+                runs['risky' if info.get('container') == 'None' and opt else opt].append(c)
+        for opt in (True, False, 'risky'):
+            if runs[opt]:
+                jobs.append((name, d, refp, opt, runs[opt]))
+
+    def run_one(job):
+        name, d, refp, opt, cases = job
+        return diff.run_cases(tree, d, name, cases, ref=refp, compare={'post_args': True, 'log': True, 'exc_args': False},
+                              setup=G.SETUP, tagdir='run_%s_%s' % (name, opt), timeout=1200,
+                              nproc=1 if opt == 'risky' else min(4, max(1, len(cases) // 400)), max_restarts=80)
+
+    ck.cov['t_reach'] = round(ck.elapsed(), 1)
+    with ThreadPoolExecutor(6) as ex:
+        results = list(ex.map(run_one, jobs))
+    for (name, d, refp, opt, cases), res in zip(jobs, results):
+        if True:
             total_n += res.n
             if opt:
                 nontrivial += res.distinct
@@ -211,7 +341,8 @@ def main(ck):
                                 'expected': m['exp'], 'observed': m['got'], 'optimised': opt, 'case_info': info})
             for c in res.crashes:
                 f = byname[c['case']['f']]
-                ck.discrepancy('crash:%s:%s' % (f.kind, f.typing), 'crash/hang %s in %s on %s' % (c['kind'], f.kind, c['case']['a']),
+                info = f.cases[c['case']['ci']][1]
+                ck.discrepancy(classify_crash(f, info, c), 'crash/hang %s in %s on %s' % (c['kind'], f.kind, c['case']['a']),
                                {'module_source': G.HEADER + f.src, 'ref_source': G.HEADER + f.ref, 'ext': '.pyx',
                                 'case': {k: v for k, v in c['case'].items() if k != 'ci'}, 'setup': G.SETUP,
                                 'stderr': c['stderr'][-1500:]})
@@ -229,6 +360,8 @@ def main(ck):
                  'carray-full', 'carray-slice-ab', 'carray-ptr-ab', 'enum-objstart'):
         if kind not in kinds_opt:
             need.append('kind ' + kind)
+    if os.environ.get('VERIF_C14_ONLY'):
+        need = []
     ck.inconclusive_if(bool(need), 'optimised loop form not reached for: %s' % ', '.join(need[:12]))
     ck.inconclusive_if(len(lost) > 0.2 * len(fns), '%d of %d templates lost to build failures' % (len(lost), len(fns)))
     expected_opt = sum(1 for f in fns if f.expect_opt and f.marker != 'py-range')
